@@ -1445,6 +1445,162 @@ enum St {
     Arena(Box<ArenaSt>),
 }
 
+/// target "tall": a very tall tree (capacity 4 or 5, about a hundred thousand keys inserted in order: more than ten
+/// levels). The per-call machinery of the other targets costs O(n) per call on both sides, so this target has no model
+/// trace (the theorems cover every size; the model driver prints the header line only): the implementation is driven
+/// here against std's BTreeMap with probes of every reader kind on the way up, at the top and after trimming both ends.
+fn tall_probe(t: &mut BPlusTreeMap<i64, i64>, m: &mut std::collections::BTreeMap<i64, i64>, z: i64, c: &mut Ctx) {
+    use std::ops::Bound::{Excluded, Included, Unbounded};
+    let w = m.get(&z).copied();
+    if t.get(&z).copied() != w {
+        c.viol("C01", &format!("tall tree ({} entries): get({}) = {:?}, reference {:?}", m.len(), z, t.get(&z), w));
+    }
+    if t.contains_key(&z) != w.is_some() {
+        c.viol("C01", &format!("tall tree ({} entries): contains_key({}) wrong", m.len(), z));
+    }
+    if *t.get_or_default(&z, &-7) != w.unwrap_or(-7) {
+        c.viol("C01", &format!("tall tree ({} entries): get_or_default({}) wrong", m.len(), z));
+    }
+    if t.try_get(&z).ok().copied() != w || t.get_item(&z).ok().copied() != w {
+        c.viol("C10", &format!("tall tree ({} entries): try_get / get_item({}) disagree with get", m.len(), z));
+    }
+    match (t.get_mut(&z), m.get_mut(&z)) {
+        (Some(a), Some(b)) => {
+            *a += 1;
+            *b += 1;
+        }
+        (None, None) => {}
+        _ => c.viol("C01", &format!("tall tree ({} entries): get_mut({}) disagrees with the reference", m.len(), z)),
+    }
+    if t.len() != m.len() {
+        c.viol("C01", &format!("tall tree: len() = {} reference {}", t.len(), m.len()));
+    }
+    let f = t.first().map(|(k, v)| (*k, *v));
+    if f != m.iter().next().map(|(k, v)| (*k, *v)) {
+        c.viol("C02", &format!("tall tree ({} entries): first() = {:?}", m.len(), f));
+    }
+    for (lo, hi) in [(z - 3, z), (z, z + 3), (z - 1, z + 1), (z + 2, z - 2)] {
+        let bounds = [
+            (Included(lo), Included(hi)), (Included(lo), Excluded(hi)), (Excluded(lo), Included(hi)), (Excluded(lo), Excluded(hi)),
+            (Included(lo), Unbounded), (Excluded(lo), Unbounded),
+        ];
+        for b in bounds {
+            let got: Vec<(i64, i64)> = t.range((b.0.as_ref(), b.1.as_ref())).take(6).map(|(k, v)| (*k, *v)).collect();
+            let want: Vec<(i64, i64)> = if matches!((&b.0, &b.1), (Included(a), Included(e)) | (Included(a), Excluded(e)) | (Excluded(a), Included(e)) | (Excluded(a), Excluded(e)) if a > e)
+                || matches!((&b.0, &b.1), (Excluded(a), Excluded(e)) if a == e) {
+                Vec::new()          // BTreeMap::range panics on inverted intervals; the tree must yield nothing
+            } else {
+                m.range((b.0, b.1)).take(6).map(|(k, v)| (*k, *v)).collect()
+            };
+            if got != want {
+                c.viol("C03", &format!("tall tree ({} entries): range({:?}, {:?}) starts {:?}, reference {:?}", m.len(), b.0, b.1, got, want));
+            }
+        }
+        let got: Vec<(i64, i64)> = t.items_range(Some(&lo), Some(&hi)).take(6).map(|(k, v)| (*k, *v)).collect();
+        let want: Vec<(i64, i64)> = if lo >= hi { Vec::new() } else { m.range(lo..hi).take(6).map(|(k, v)| (*k, *v)).collect() };
+        if got != want {
+            c.viol("C03", &format!("tall tree ({} entries): items_range({}, {}) = {:?}, reference {:?}", m.len(), lo, hi, got, want));
+        }
+    }
+    let got: Vec<i64> = t.items().take(3).map(|(k, _)| *k).collect();
+    let want: Vec<i64> = m.keys().take(3).copied().collect();
+    if got != want || t.items_fast().take(3).map(|(k, _)| *k).collect::<Vec<i64>>() != want {
+        c.viol("C02", &format!("tall tree ({} entries): iteration starts {:?}, reference {:?}", m.len(), got, want));
+    }
+}
+
+fn tall_run(cap: usize, n: i64, sign: i64, c: &mut Ctx) {
+    let mut t = match BPlusTreeMap::<i64, i64>::new(cap) {
+        Ok(t) => t,
+        Err(_) => {
+            c.viol("C10", "tall tree: constructor failed");
+            return;
+        }
+    };
+    let mut m = std::collections::BTreeMap::new();
+    let mut seed: u64 = 0x9e3779b97f4a7c15 ^ (n as u64);
+    let mut rnd = |k: i64| -> i64 {
+        seed = seed.wrapping_mul(6364136223846793005).wrapping_add(1442695040888963407);
+        ((seed >> 33) as i64) % k.max(1)
+    };
+    for i in 0..n {
+        let z = sign * i;
+        let r = t.insert(z, z * 10);
+        if r != m.insert(z, z * 10) {
+            c.viol("C01", &format!("tall tree: insert({}) returned {:?}", z, r));
+        }
+        WD_PROGRESS.fetch_add(1, AO::SeqCst);
+        // powers of the minimum fan-out times the leaf minimum are where a level is added
+        let special = [8748, 8749, 8750, 26243, 26244, 26245, 78731, 78732, 78733, 236195, 236196].contains(&i);
+        if i % 2000 == 1999 || special || i == n - 1 {
+            tall_probe(&mut t, &mut m, z, c);
+            tall_probe(&mut t, &mut m, sign * rnd(i + 1), c);
+            tall_probe(&mut t, &mut m, sign * (i / 2), c);
+            tall_probe(&mut t, &mut m, sign * (i + 5), c);
+        }
+    }
+    for _ in 0..200 {
+        tall_probe(&mut t, &mut m, sign * rnd(n), c);
+    }
+    let l = t.last().map(|(k, v)| (*k, *v));
+    if l != m.iter().next_back().map(|(k, v)| (*k, *v)) {
+        c.viol("C02", &format!("tall tree ({} entries): last() = {:?}", m.len(), l));
+    }
+    if !t.check_invariants() || t.check_invariants_detailed().is_err() || t.validate().is_err() {
+        c.viol("C04", &format!("tall tree ({} entries): validators reject a map built through insert", m.len()));
+    }
+    // height: every leaf at least half full and minimum fan-out floor(cap/2)+1 bound the number of levels
+    let leaves = t.leaf_count() as f64;
+    let fan = (cap / 2 + 1) as f64;
+    let bound = (leaves.ln() / fan.ln()).ceil() as usize + 2;
+    let mut depth = 1usize;
+    {
+        // count the levels by following first children
+        let (_cap, root) = { let p = t.verif_parts(); (p.0, p.1.clone()) };
+        let mut cur = root;
+        loop {
+            match cur {
+                NodeRef::Leaf(..) => break,
+                NodeRef::Branch(id, _) => match t.get_branch(id).and_then(|b| b.verif_fields().2.first().cloned()) {
+                    Some(ch) => {
+                        depth += 1;
+                        cur = ch;
+                    }
+                    None => break,
+                },
+            }
+            if depth > 200 {
+                break;
+            }
+        }
+    }
+    if depth > bound {
+        c.viol("C04", &format!("tall tree: {} levels for {} leaves at capacity {} (bound {})", depth, leaves, cap, bound));
+    }
+    let trim = (n / 40).min(3000);
+    for i in 0..trim {
+        for z in [sign * i, sign * (n - 1 - i)] {
+            let r = t.remove(&z);
+            if r != m.remove(&z) {
+                c.viol("C01", &format!("tall tree: remove({}) returned {:?}", z, r));
+            }
+        }
+        WD_PROGRESS.fetch_add(1, AO::SeqCst);
+    }
+    for _ in 0..100 {
+        tall_probe(&mut t, &mut m, sign * (trim + rnd(n - 2 * trim)), c);
+    }
+    tall_probe(&mut t, &mut m, sign * trim, c);
+    tall_probe(&mut t, &mut m, sign * (n - 1 - trim), c);
+    tall_probe(&mut t, &mut m, sign * (trim - 1), c);
+    if !t.check_invariants() || t.check_invariants_detailed().is_err() {
+        c.viol("C04", "tall tree: validators reject the map after trimming both ends");
+    }
+    if t.len() != m.len() {
+        c.viol("C01", "tall tree: len() differs after trimming");
+    }
+}
+
 fn main() {
     let args: Vec<String> = std::env::args().collect();
     let ops = std::fs::File::open(&args[1]).expect("ops file");
@@ -1563,6 +1719,18 @@ fn main() {
                         Err(e) => {
                             let _ = writeln!(c.out, "O new=Err({})", s_err(&e));
                         }
+                    }
+                }
+                "tall" => {
+                    let n: i64 = toks.iter().find_map(|t| t.strip_prefix("n=").map(|x| x.parse().unwrap())).unwrap_or(1000);
+                    let sign: i64 = if toks.iter().any(|t| *t == "order=desc") { -1 } else { 1 };
+                    if let Ok(mut g) = WD_CURRENT.lock() {
+                        *g = format!("{} 0", c.hid);
+                    }
+                    let r = catch_unwind(AssertUnwindSafe(|| tall_run(cap, n, sign, &mut c)));
+                    if let Err(e) = r {
+                        let msg = e.downcast_ref::<String>().cloned().or_else(|| e.downcast_ref::<&str>().map(|x| x.to_string())).unwrap_or_default();
+                        c.viol(if msg.contains("VERIF-HOOK") { "C05" } else { "C01" }, &format!("tall tree: a call panicked: {}", msg));
                     }
                 }
                 "arena" => {
